@@ -540,7 +540,12 @@ fn check_txs(h: &IndexerHandle, m: &MState, q: &Query, at: &str, tol: &Tol, st: 
         }
     }
     if q.limit > 0 {
-        let max_pages = one.len() / q.limit as usize + 3;
+        // In exact mode a transaction is one group and the pages are the one-shot groups cut every
+        // `limit`.  In prefix mode the records of one transaction under two matching scripts are not
+        // adjacent keys: the one-shot answer merges them when everything in between is filtered out,
+        // a page boundary in between does not, so paging may legitimately return more (smaller)
+        // groups; every page still carries at least one cell.
+        let max_pages = if q.mode == MODE_EXACT { one.len() } else { flatten(&one).len() } / q.limit as usize + 3;
         let pages = match run_txs(h, q, q.desc, q.limit, max_pages).map_err(|e| vio("get_transactions:error", q, at, e))? {
             TxPages::Grouped(p) => p,
             _ => unreachable!(),
